@@ -75,7 +75,7 @@ func NewNumericRangeSearcher(ctx context.Context, indexReader index.IndexReader,
 
 	// FIXME hard-coded precision, should match field declaration
 	termRanges := splitInt64Range(minInt64, maxInt64, 4)
-	terms := termRanges.Enumerate(isIndexed)
+	terms := termRanges.enumeratePrefixCoded(isIndexed)
 	if fieldDict != nil {
 		if fd, ok := fieldDict.(index.FieldDict); ok {
 			if err = fd.Close(); err != nil {
@@ -181,6 +181,44 @@ func incrementBytes(in []byte) []byte {
 }
 
 type termRanges []*termRange
+
+// enumeratePrefixCoded lists the prefix coded terms of every range.
+// Prefix coded terms only use 7 bits per byte after the shift byte, so the
+// successor carries at 0x80; stepping through all 256 byte values (as
+// Enumerate does) visits up to 256^k invalid terms whenever a range crosses
+// a 7-bit group boundary.
+func (tr termRanges) enumeratePrefixCoded(filter filterFunc) [][]byte {
+	var rv [][]byte
+	for _, tri := range tr {
+		if bytes.Compare(tri.startTerm, tri.endTerm) > 0 {
+			continue
+		}
+		next := tri.startTerm
+		for {
+			if filter == nil || filter(next) {
+				rv = append(rv, next)
+			}
+			if bytes.Equal(next, tri.endTerm) {
+				break
+			}
+			next = incrementPrefixCoded(next)
+		}
+	}
+	return rv
+}
+
+func incrementPrefixCoded(in []byte) []byte {
+	rv := make([]byte, len(in))
+	copy(rv, in)
+	for i := len(rv) - 1; i >= 1; i-- {
+		rv[i]++
+		if rv[i] < 0x80 {
+			break
+		}
+		rv[i] = 0
+	}
+	return rv
+}
 
 func (tr termRanges) Enumerate(filter filterFunc) [][]byte {
 	var rv [][]byte
